@@ -137,6 +137,11 @@ class Out:
         if label is not None:
             self.trivia(depth)
             self.spans.append([label, self.pos + len(pre.encode()), depth])
+        if st.tabs_between and label is not None and " " in text and not free_text:
+            # the blank between the keyword and what follows it written as a TAB (and the later ones as two blanks where they
+            # separate parameters - not inside quotes or annotations)
+            kw, rest = text.split(" ", 1)
+            text = kw + "\t" + rest
         s = pre + text + (("  ") if st.trailing and not free_text else "") + st.nl
         self.raw(s)
         self.after_text = free_text
